@@ -108,3 +108,70 @@ def score_tol(base, A, ref):
     if base == "mmd":
         return 1e-6 * max(S, abs(ref))
     return 1e-8 * max(S, abs(ref))
+
+
+def mmd_longdouble(P, A, ovo, eps=1e-12):
+    """MMD GEMINI of the clipped predictions, literal difference-first form in extended precision.
+
+    The library evaluates a+c-2b under a square root (catastrophic cancellation near one-hot predictions: the float64
+    score then has plateaus of relative width 1e-3 and cannot be differentiated numerically); (p-q)^T K (p-q) with the
+    difference taken first is the same mathematical function and is well conditioned."""
+    ld = np.longdouble
+    y = np.clip(np.asarray(P, dtype=ld), ld(eps), ld(1) - ld(eps))
+    A = np.asarray(A, dtype=ld)
+    n, K = y.shape
+    pi = y.mean(0)
+    C = y / (n * pi)
+    tot = ld(0)
+    if not ovo:
+        for k in range(K):
+            d = C[:, k] - ld(1) / n
+            q = d @ A @ d
+            tot += pi[k] * np.sqrt(max(q, ld(0)))
+    else:
+        for a in range(K):
+            for b in range(a + 1, K):
+                d = C[:, a] - C[:, b]
+                q = d @ A @ d
+                tot += 2 * pi[a] * pi[b] * np.sqrt(max(q, ld(0)))
+    return float(tot)
+
+
+def softmax_longdouble(L):
+    L = np.asarray(L, dtype=np.longdouble)
+    L = L - L.max(1, keepdims=True)
+    E = np.exp(L)
+    return E / E.sum(1, keepdims=True)
+
+
+def mmd_condition(P, A, ovo, eps=1e-12):
+    """Worst relative rounding noise eta/|Q| of the squared distances the library forms as a+c-2b (OvA) or
+    A_a+A_b-2w_ab (OvO): eta = u*(sum of the magnitudes of the cancelling terms), Q from the well-conditioned form."""
+    ld = np.longdouble
+    y = np.clip(np.asarray(P, dtype=ld), ld(eps), ld(1) - ld(eps))
+    A = np.asarray(A, dtype=ld)
+    n, K = y.shape
+    u = 2.3e-16 * (n + 4)
+    pi = y.mean(0)
+    alpha = y / pi
+    Kn = A / n ** 2
+    worst = 0.0
+    if not ovo:
+        gamma = Kn @ alpha
+        a = (alpha * gamma).sum(0)
+        b = gamma.sum(0)
+        c = Kn.sum()
+        for k in range(K):
+            d = alpha[:, k] - 1
+            q = abs(d @ Kn @ d)
+            eta = u * (abs(a[k]) + abs(c) + 2 * abs(b[k]))
+            worst = max(worst, float(eta / q) if q > 0 else np.inf)
+    else:
+        omega = alpha.T @ Kn @ alpha
+        for a_ in range(K):
+            for b_ in range(a_ + 1, K):
+                d = alpha[:, a_] - alpha[:, b_]
+                q = abs(d @ Kn @ d)
+                eta = u * (abs(omega[a_, a_]) + abs(omega[b_, b_]) + 2 * abs(omega[a_, b_]))
+                worst = max(worst, float(eta / q) if q > 0 else np.inf)
+    return worst
